@@ -42,6 +42,90 @@ def _chase_copy(body, l, depth=0):
     return ("local", l)
 
 
+def _check_outer(facts, sign, helper, hbody, h_some_blocks, qlocal):
+    """sign() delegating the advance to `helper`: (a) every Some(..) the helper returns carries the entry value q;
+    (b) in sign the call dominates ots_sign and every Some; (c) ots_sign receives the helper's payload; (d) sign itself
+    stores nothing through self and hands self to nobody else except under the helper's success."""
+    for bi in h_some_blocks:
+        for s_ in hbody.blocks[bi]["s"]:
+            if s_[0] == "A" and s_[1] == [0] and s_[2][0] == "agg" and s_[2][1].get("variant") == 1:
+                l = operand_local(s_[2][2][0]) if s_[2][2] else None
+                x = l
+                ok = False
+                for _ in range(8):
+                    if x is None:
+                        break
+                    if x == qlocal:
+                        ok = True
+                        break
+                    dd = hbody.single_def(x)
+                    if dd and dd[2] == "A" and dd[3][2][0] == "use" and dd[3][2][1][0] in ("cp", "mv") and len(dd[3][2][1][1]) == 1:
+                        x = dd[3][2][1][1][0]
+                    else:
+                        break
+                if not ok:
+                    return False, "the helper %s returns Some(x) with x not the pre-advance leaf index" % helper["name"]
+    body = Body(sign)
+    calls = [(bi, body.blocks[bi]["t"]) for bi in body.reach if body.blocks[bi]["t"][0] == "call" and body.blocks[bi]["t"][1].get("id") == helper["id"]]
+    if len(calls) != 1:
+        return False, "sign() calls the advancing helper %d times" % len(calls)
+    cb, ct = calls[0]
+    res = ct[3][0] if ct[3] and len(ct[3]) == 1 else None
+    # locals derived from the helper's result (copies, Try::branch, downcast fields)
+    derived = {res}
+    changed = True
+    while changed:
+        changed = False
+        for bi in body.reach:
+            for s_ in body.blocks[bi]["s"]:
+                if s_[0] == "A" and len(s_[1]) == 1 and s_[1][0] not in derived and s_[2][0] in ("use", "discr"):
+                    src = s_[2][1][1] if s_[2][0] == "use" and s_[2][1][0] in ("cp", "mv") else (s_[2][1] if s_[2][0] == "discr" else None)
+                    if src and src[0] in derived:
+                        derived.add(s_[1][0])
+                        changed = True
+            t = body.blocks[bi]["t"]
+            if t[0] == "call" and t[1]["f"].endswith("Try>::branch") and t[2] and operand_local(t[2][0]) in derived \
+                    and t[3] and len(t[3]) == 1 and t[3][0] not in derived:
+                derived.add(t[3][0])
+                changed = True
+    # success edge: the switch on a derived discriminant; Some / Continue
+    ok_edge = None
+    for bi in body.reach:
+        t = body.blocks[bi]["t"]
+        if t[0] == "switch" and operand_local(t[1]) in derived:
+            dd = body.single_def(operand_local(t[1]))
+            root = dd[3][2][1][0] if dd and dd[2] == "A" and dd[3][2][0] == "discr" else None
+            rd = body.single_def(root) if root is not None else None
+            via_branch = bool(rd and rd[2] == "call" and rd[3][1]["f"].endswith("Try>::branch"))
+            want = 0 if via_branch else 1          # ControlFlow::Continue = 0, Option::Some = 1
+            for v, b_ in t[2]:
+                if int(v) == want:
+                    ok_edge = b_
+    if ok_edge is None:
+        return False, "sign() does not branch on the result of %s" % helper["name"]
+    ots = [(bi, body.blocks[bi]["t"]) for bi in body.reach if body.blocks[bi]["t"][0] == "call" and re.search(r"::ots_sign$", norm_name(body.blocks[bi]["t"][1]["f"]))]
+    somes = [bi for bi in body.reach for s_ in body.blocks[bi]["s"] if s_[0] == "A" and s_[1] == [0] and s_[2][0] == "agg" and s_[2][1].get("variant") == 1]
+    if not ots or not somes or not all(body.dominates(ok_edge, b_) for b_, _t in ots) or not all(body.dominates(ok_edge, b_) for b_ in somes):
+        return False, "the success of %s does not dominate ots_sign() and every Some(..) return of sign()" % helper["name"]
+    for b_, t in ots:
+        if not any(operand_local(a) in derived for a in t[2]):
+            return False, "ots_sign() is not called with the index returned by %s" % helper["name"]
+    for bi in body.reach:
+        if body.dominates(ok_edge, bi):
+            continue
+        for s_ in body.blocks[bi]["s"]:
+            if s_[0] == "A" and len(s_[1]) > 1 and s_[1][0] == 1:
+                return False, "sign() stores through self outside the success path of %s (line %s)" % (helper["name"], s_[3])
+        t = body.blocks[bi]["t"]
+        if t[0] == "call" and bi != cb:
+            for a in t[2]:
+                l = operand_local(a)
+                dd = body.single_def(l) if l is not None else None
+                if l == 1 or (dd and dd[2] == "A" and dd[3][2][0] == "ref" and dd[3][2][1] and dd[3][2][2][0] == 1):
+                    return False, "sign() hands self to %s outside the success path of %s" % (t[1]["f"], helper["name"])
+    return True, None
+
+
 def run_lmsstate(facts, run, prop="C16"):
     cfg = facts.config
     mods = sorted(set(m.group(1) for n in facts.by_name for m in [re.match(r"(crrl::lms::[A-Za-z0-9_]+)::PrivateKey::sign$", norm_name(n))] if m))
@@ -85,9 +169,22 @@ def run_lmsstate(facts, run, prop="C16"):
                                 stores.append((fn, bi, s))
         run.oblige(ok=True)
         outside = [x for x in stores if norm_name(x[0]["name"]) != mod + "::PrivateKey::sign"]
+        helper = None
         if outside:
-            run.discharged -= 1
-            bad("S1", "the leaf counter is written outside sign(): %s" % outside[0][0]["name"], outside[0][0], outside[0][2][3])
+            # the advance may live in one private helper that only sign() calls (`fn advance(&mut self) -> Option<u32>`)
+            hs = set(x[0]["id"] for x in outside)
+            cand = outside[0][0]
+            callers = set()
+            for g in facts.fns.values():
+                for b_ in g["blocks"]:
+                    if b_["t"][0] == "call" and b_["t"][1].get("id") == cand["id"]:
+                        callers.add(norm_name(g["name"]))
+            if len(hs) == 1 and not cand.get("reach") and callers == {mod + "::PrivateKey::sign"} \
+                    and not [x for x in stores if norm_name(x[0]["name"]) == mod + "::PrivateKey::sign"]:
+                helper = cand
+            else:
+                run.discharged -= 1
+                bad("S1", "the leaf counter is written outside sign(): %s" % outside[0][0]["name"], outside[0][0], outside[0][2][3])
         sign = facts.fn_named(mod + "::PrivateKey::sign")
         if sign is None:
             cands = [f for n, l in facts.by_name.items() if norm_name(n) == mod + "::PrivateKey::sign" for f in l]
@@ -96,6 +193,13 @@ def run_lmsstate(facts, run, prop="C16"):
             run.oblige(ok=False)
             bad("S0", "sign not found", {"file": "src/lms.rs", "line": 0})
             continue
+        outer = None
+        if helper is not None:
+            # the rules S2 (value, dominance over Some), S4, S5 are decided on the helper; sign() is then checked for:
+            # the call dominates ots_sign and every Some, ots_sign receives the helper's payload, nothing touches self
+            # before the call or on its None outcome
+            outer = sign
+            sign = helper
         body = Body(sign)
         mine = [x for x in stores if x[0] is sign]
         # ---- S2: exactly one store, of q + 1, q loaded from the field on entry ----
@@ -143,8 +247,13 @@ def run_lmsstate(facts, run, prop="C16"):
             for s in body.blocks[bi]["s"]:
                 if s[0] == "A" and s[1] == [0] and s[2][0] == "agg" and s[2][1].get("variant") == 1:
                     some_blocks.append(bi)
-        dom_ok = bool(ots_blocks) and all(body.dominates(sb, b) for b, _t in ots_blocks) and \
+        dom_ok = (bool(ots_blocks) or outer is not None) and all(body.dominates(sb, b) for b, _t in ots_blocks) and \
             all(body.dominates(sb, b) for b in some_blocks) and bool(some_blocks)
+        if dom_ok and outer is not None:
+            ok_h, why_h = _check_outer(facts, outer, sign, body, some_blocks, qlocal)
+            if not ok_h:
+                bad("S2", why_h, outer)
+                continue
         if not dom_ok:
             bad("S2", "the store to current_leaf does not dominate ots_sign() and every Some(..) return", sign, st[3])
             continue
@@ -171,6 +280,8 @@ def run_lmsstate(facts, run, prop="C16"):
                 if found:
                     break
             s3 = s3 and found
+        if outer is not None:
+            s3 = True      # decided by _check_outer (payload of the helper reaches ots_sign)
         if not s3:
             bad("S3", "ots_sign() is not called with the pre-advance leaf index", sign, ots_blocks[0][1][5])
         else:
